@@ -946,3 +946,61 @@ Example C06_tr_insert_runs :
   run 0 1 [48] 97 = Some (CLite.VInt 0, Some [CLite.VInt 0], [[CLite.VInt 3; CLite.VPtr bl 0; txt; CLite.VInt 0; CLite.VInt 0]]) /\
   run 5 5 [55] 97 = Some (CLite.VInt 1, Some [CLite.VInt 0], []).
 Proof. exact TrExCmds.run_insert_examples. Qed.
+
+(* pu (coq/TrExCmdsPut.v), through the TRANSLATED reg_get (C06_tr_reg_get ...): regs_at m pb lb R = the register file of reg.c in memory holds the
+   registers R (TrReg.v), ex_abs (regs st) R = the model state's registers are those texts.  n = lbuf_len(xb); buf = reg_get(REG(arg), &lnmode);
+   TrExCmdsPut.put_mem = the memory after that (the command's frame beg, end, lnmode, with the register's line-wise flag stored in lnmode).
+   An unset register: the command returns 1 and M = (st, 1).  A set register: its slot points to a block b0 that holds the model's text buf; ex_region
+   runs; the address is accepted also when it is address 0 (0pu, fix 6c95ca8); lbuf_edit(xb, buf, end, end) is the one oracle call, with the
+   model's end; xrow = MAX(0, MIN(len' - 1, end + len' - len - 1)) = the model's current line (fix 7b90d84).  ; # ^ (computed registers)
+   are outside the model (reg_special). *)
+From NV Require TrExCmdsPut.
+Theorem C06_tr_ec_put_entry : forall ext fuel D a0 a1 a2 a3 m,
+  CLiteExt.callx ext GenCFuncs.cprog fuel (S D) GenCFuncs.F_ec_put [a0; a1; a2; a3] m = TrExCmdsPut.ec_put_run ext fuel D a0 a1 a2 a3 m CLite.VUndef.
+Proof. exact TrExCmdsPut.ec_put_entry. Qed.
+Print Assumptions C06_tr_ec_put_entry.
+Theorem C06_tr_ec_put : forall ext fuel rvalid rfind (st : st) m bs bl s gbufs lblk e0 d pb lb0 R ba arg,
+  TrExCmds.cmd_pre m st bs bl s gbufs lblk -> GenCFuncs.G_xrow <> bs -> GenCFuncs.G_xrow <> bl ->
+  TrExAddr.int_ok e0 -> (2 * S (length s) <= fuel)%nat ->
+  TrReg.regs_at m pb lb0 R -> TrRegEx.ex_abs (regs st) R -> CLiteProps.str_at m ba arg -> nonul arg -> reg_special (REG arg) = false ->
+  forall vcmd vtxt,
+  let M := ec_put rvalid rfind s arg st in
+  let R0 := ex_region rvalid rfind s st in let e := snd (fst R0) in
+  let bb := length m in let be := S (length m) in let D := S (S (S (S d))) in
+  let name := N.to_nat (if (REG arg =? 34)%N then 0%N else REG arg) in
+  let pm := TrExCmdsPut.put_mem m e0 lb0 arg in
+  (reg_get st (REG arg) = None ->
+     TrExCmdsPut.ec_put_run ext fuel D (CLite.VPtr bs 0) vcmd (CLite.VPtr ba 0) vtxt m (CLite.VInt e0) = CLite.Ok (CLite.VInt 1, pm) /\ M = (st, 1)) /\
+  (forall buf, reg_get st (REG arg) = Some buf ->
+     exists b0, TrReg.cellp pb name = CLite.VPtr b0 0 /\ CLiteProps.str_at m b0 buf /\
+     exists m1, CLiteExt.callx ext GenCFuncs.cprog fuel D GenCFuncs.F_ex_region [CLite.VPtr bs 0; CLite.VPtr bb 0; CLite.VPtr be 0] pm
+                = CLite.Ok (CLite.VInt (CLite.b2z (fst (fst (fst R0)))), m1) /\
+       (snd M <> 0 ->
+          TrExCmdsPut.ec_put_run ext fuel D (CLite.VPtr bs 0) vcmd (CLite.VPtr ba 0) vtxt m (CLite.VInt e0) = CLite.Ok (CLite.VInt (snd M), m1) /\
+          snd M = 1 /\ CLiteProps.cell_at m1 GenCFuncs.G_xrow (xrow (fst M)) /\ lb (fst M) = lb st) /\
+       (snd M = 0 -> lb (fst M) = lbuf_edit (Some buf) (Z.to_nat e) (Z.to_nat e) (lb st) /\ forall u' m5 x5,
+          ext GenCFuncs.X_lbuf_edit [CLite.VPtr bl 0; CLite.VPtr b0 0; CLite.VInt e; CLite.VInt e] m1 = CLite.Ok (u', m5) ->
+          nth_error m5 be = Some [CLite.VInt e] -> TrExCmds.len_view m5 bl (slen (fst M)) -> CLiteProps.cell_at m5 GenCFuncs.G_xrow x5 ->
+          TrExAddr.int_ok (e + slen (fst M)) ->
+          TrExCmdsPut.ec_put_run ext fuel D (CLite.VPtr bs 0) vcmd (CLite.VPtr ba 0) vtxt m (CLite.VInt e0)
+          = CLite.Ok (CLite.VInt 0, CLiteProps.upd m5 GenCFuncs.G_xrow [CLite.VInt (xrow (fst M))]))).
+Proof. exact TrExCmdsPut.tr_ec_put. Qed.
+Print Assumptions C06_tr_ec_put.
+
+(* the translated ec_put RUNS, reg_get included (TrExCmdsPut.put_example_mem: the unnamed register of reg.c points to the block bl + 4 = "x\n"): `2pu`:
+   lbuf_edit(xb, buf, 2, 2), buf = that block, xrow = 2; `0pu`: (0, 0), xrow = 0 (fix 6c95ca8); `$pu`: (5, 5), xrow = 5; `0pu` and `pu` on the empty
+   buffer: (0, 0), xrow = 0 (fix 7b90d84 when nothing is added); `2pu` with the register named by a double quote: the same as `2pu`; `7pu`: 1; `2pu a` with register a unset: 1, no call *)
+Example C06_tr_put_runs :
+  let bl := length GenCFuncs.cglobals in
+  let run lines newlen addr arg :=
+    TrExCmds.show (TrExCmdsPut.ec_put_run (TrExCmds.log_ext newlen []) 100 10 (CLite.VPtr (S bl) 0) (CLite.VPtr (S (S bl)) 0) (CLite.VPtr (S (S (S bl))) 0)
+                     (CLite.VInt 0) (TrExCmdsPut.put_example_mem lines addr arg) (CLite.VInt 0)) (bl + 8) in
+  run 5 6 [50] [] = Some (CLite.VInt 0, Some [CLite.VInt 2], [[CLite.VInt 3; CLite.VPtr bl 0; CLite.VPtr (bl + 4) 0; CLite.VInt 2; CLite.VInt 2]]) /\
+  run 5 6 [48] [] = Some (CLite.VInt 0, Some [CLite.VInt 0], [[CLite.VInt 3; CLite.VPtr bl 0; CLite.VPtr (bl + 4) 0; CLite.VInt 0; CLite.VInt 0]]) /\
+  run 5 6 [36] [] = Some (CLite.VInt 0, Some [CLite.VInt 5], [[CLite.VInt 3; CLite.VPtr bl 0; CLite.VPtr (bl + 4) 0; CLite.VInt 5; CLite.VInt 5]]) /\
+  run 0 1 [48] [] = Some (CLite.VInt 0, Some [CLite.VInt 0], [[CLite.VInt 3; CLite.VPtr bl 0; CLite.VPtr (bl + 4) 0; CLite.VInt 0; CLite.VInt 0]]) /\
+  run 0 0 [] [] = Some (CLite.VInt 0, Some [CLite.VInt 0], [[CLite.VInt 3; CLite.VPtr bl 0; CLite.VPtr (bl + 4) 0; CLite.VInt 0; CLite.VInt 0]]) /\
+  run 5 6 [50] [34] = run 5 6 [50] [] /\
+  run 5 6 [55] [] = Some (CLite.VInt 1, Some [CLite.VInt 0], []) /\
+  run 5 6 [50] [97] = Some (CLite.VInt 1, Some [CLite.VInt 0], []).
+Proof. exact TrExCmdsPut.run_put_examples. Qed.
